@@ -774,6 +774,13 @@ func canonTrace(steps []map[int][]wamp.Message, nsess int) []string {
 					// departure, assigned in map-iteration order. C01 owns their consistency.
 					cp := *x
 					cp.Publication = 0
+					if tp, _ := wamp.AsString(cp.Details["topic"]); (tp == "wamp.subscription.on_delete" || tp == "wamp.registration.on_delete") && len(cp.Arguments) > 0 {
+						// which of several sessions ending at once removes the last member of a
+						// shared subscription / registration depends on the order in which the
+						// router takes them (map iteration): the session named in on_delete is
+						// not compared between runs (C18 judges it against the model)
+						cp.Arguments = append(wamp.List{"<session>"}, cp.Arguments[1:]...)
+					}
 					for _, f := range reflectFields(&cp) {
 						o.fields = append(o.fields, prep(Canon(f)))
 					}
